@@ -263,6 +263,9 @@ class Renderer:
             "lambda_param": [f"_f{i} = lambda row: row", f"{t} = _f{i}({e})"],
             "except_as": ["try:", f"    {t} = {e}", "except KeyError as err:", f"    {t} = str(err)"],
             "nested_def_param": ["def _inner(row):", "    return row", f"{t} = _inner({e})"],
+            # names bound by the patterns of a match statement (capture, star, mapping rest)
+            "match_capture": [f"{t} = None", f"match {{'kind': {e}, 'more': [1, 2]}}:", "    case {'kind': kindcap, 'more': [firstcap, *restcap], **otherscap}:",
+                              f"        {t} = pipehelp.first(kindcap, firstcap, restcap, otherscap)"],
             "if_false": [f"{t} = None", "if pipehelp.false():", f"    {t} = {e}"],   # written, analysed, never executed
             "if_flag": [f"{t} = None", "if FLAG:", f"    {t} = {e}"],   # executed or not, depending on the tracked variable FLAG
             "for": [f"{t} = None", "for _k in range(1):", f"    {t} = {e}"],
